@@ -379,6 +379,9 @@ func init() {
 					fmt.Fprintf(&sb, "  - mode: users\n    duration: %sms\n    concurrency: %s\n", f[1], f[2])
 				}
 				fmt.Fprintf(&sb, "    parameters:\n      %s: v%d\n      F1VERIF_STAGE: \"%d\"\n", key, i, i)
+				if p["badparam"] == "1" { // one more parameter, which the operating system refuses to export (a key with '=')
+					fmt.Fprintf(&sb, "      \"F1VERIF=BAD\": x\n")
+				}
 			}
 			rs, err := file.ParseConfigFile([]byte(sb.String()), time.Now())
 			if err != nil {
